@@ -67,10 +67,13 @@ Proof.
     { exists rs0; fin. }
     cbv zeta. destruct (streak_field (shares s) lg fs) as [k|].
     2:{ exists rs0; fin. }
-    destruct (lookup k _) as [[z|l]|].
+    destruct (lookup k _) as [[z|l|m|a b]|].
     + eexists; fin.
     + exists (streak_recs (now s) l). fin.
       unfold streak_recs. induction l; cbn; auto.
+    + exists (mstreak_recs (now s) m). fin.
+      unfold mstreak_recs. induction m; cbn; auto.
+    + eexists; fin.
     + exists rs0; fin.
   - unfold log_deck. destruct (clog c) as [|lg ?]; [exists rs0; fin|].
     destruct (pfields s) as [|fs ?] eqn:Hpf; [exists rs0; fin|].
@@ -372,7 +375,7 @@ Proof.
   - destruct (lstamp s) eqn:E; cbn; auto. destruct (existsb _ _); cbn; auto.
   - destruct (lstamp s) eqn:E; cbn; auto. destruct (cells_eqb _ _); cbn; auto.
   - unfold log_streak. destruct (clog c); cbn; auto. destruct (pfields s); cbn; auto.
-    destruct (streak_field _ _ _); cbn; auto. destruct (lookup _ _) as [[?|?]|]; cbn; auto.
+    destruct (streak_field _ _ _); cbn; auto. destruct (lookup _ _) as [[?|?|?|? ?]|]; cbn; auto.
   - unfold log_deck. destruct (clog c); cbn; auto. destruct (pfields s); cbn; auto.
 Qed.
 
@@ -431,6 +434,7 @@ Proof.
   - destruct (Nat.eq_dec i s0) as [E|E].
     + subst s0. rewrite getsh_upd_same by lia. cbn. exists (now s). split; [reflexivity|lia].
     + rewrite getsh_upd_other by assumption. exists t; auto.
+  - exists t. split; [|assumption]. rewrite sstamp_getsh_upd; [assumption|reflexivity].
   - exists t. split; [|assumption]. rewrite sstamp_getsh_upd; [assumption|reflexivity].
   - exists t. split; [|assumption]. rewrite sstamp_getsh_upd; [assumption|reflexivity].
   - exists t. split; [|assumption]. rewrite sstamp_getsh_upd; [assumption|reflexivity].
@@ -505,6 +509,7 @@ Proof.
       * rewrite getsh_upd_same by assumption. cbn. intros E. inversion E. lia.
       * rewrite upd_out by assumption. apply H.
     + rewrite getsh_upd_other by assumption. apply H.
+  - intros i t. rewrite sstamp_getsh_upd by reflexivity. apply H.
   - intros i t. rewrite sstamp_getsh_upd by reflexivity. apply H.
   - intros i t. rewrite sstamp_getsh_upd by reflexivity. apply H.
   - intros i t. rewrite sstamp_getsh_upd by reflexivity. apply H.
@@ -611,11 +616,19 @@ Lemma update_refuted_l :
 Proof. vm_compute. repeat split. Qed.
 
 (* ---------- change ---------- *)
+Lemma lzz_eqb_eq a : forall b, lzz_eqb a b = true <-> a = b.
+Proof.
+  induction a as [|[k v] a IH]; destruct b as [|[k' v'] b]; cbn; try (split; [discriminate|congruence]); [tauto|].
+  rewrite !andb_true_iff, !Z.eqb_eq, IH. split; [intros [[-> ->] ->]; reflexivity|intros E; inversion E; auto].
+Qed.
+
 Lemma val_eqb_eq a b : val_eqb a b = true <-> a = b.
 Proof.
   destruct a, b; cbn; try (split; [discriminate|congruence]).
   - rewrite Z.eqb_eq. split; congruence.
   - destruct (list_eq_dec Z.eq_dec l l0); split; congruence.
+  - rewrite lzz_eqb_eq. split; congruence.
+  - rewrite andb_true_iff, !Z.eqb_eq. split; [intros [-> ->]; reflexivity|intros E; inversion E; auto].
 Qed.
 
 Lemma cells_eqb_eq a : forall b, cells_eqb a b = true <-> a = b.
